@@ -157,20 +157,20 @@ type vEnt struct {
 }
 
 type vCluster struct {
-	v       *vPart
-	sims    map[string]*vSimLeader
-	logs    map[string][]vEnt // b, c
-	hws     map[string]int64  // b, c
-	leader  string
-	epoch   uint64
-	isr     []string
-	view    map[string]int64 // a sim leader's view
-	synced  map[string]bool
-	minISR  int
-	viol    string
-	vsig    string
-	steps   []vM
-	commitd []vEnt // longest prefix ever committed
+	v        *vPart
+	sims     map[string]*vSimLeader
+	logs     map[string][]vEnt // b, c
+	hws      map[string]int64  // b, c
+	leader   string
+	epoch    uint64
+	isr      []string
+	view     map[string]int64 // a sim leader's view
+	synced   map[string]bool
+	minISR   int
+	viol     string
+	vsig     string
+	steps    []vM
+	commitd  []vEnt // longest prefix ever committed
 	hwBefore int64
 }
 
@@ -306,6 +306,28 @@ func (c *vCluster) observe(step vM) {
 			break
 		}
 	}
+	// the real replica's leader-epoch history against the messages it holds: for every epoch below a
+	// later message's epoch, LastOffsetForLeaderEpoch is the offset of the first message of a later
+	// epoch (this is what reconciliation cuts a follower's log with)
+	la := c.logOf("a")
+	for i, e := range la {
+		if i == 0 || la[i-1].ep >= e.ep {
+			continue
+		}
+		// e is the first message of an epoch later than la[i-1].ep
+		if got := c.part().log.LastOffsetForLeaderEpoch(la[i-1].ep); got != int64(i) {
+			c.violation("epoch-start-misplaced", fmt.Sprintf("replica a holds messages of epoch %d up to offset %d and the first message of a later epoch (%d) at offset %d, but its leader-epoch history says epoch %d ends where offset %d begins", la[i-1].ep, i-1, e.ep, i, la[i-1].ep, got))
+			break
+		}
+	}
+	// the leader does not count a replica beyond what that replica holds
+	if c.leader == "a" {
+		for f, o := range view {
+			if f != "a" && o > int64(len(c.logOf(f))-1) {
+				c.violation("leader-counts-unreported-offset", fmt.Sprintf("leader a (epoch %d) counts replica %s at offset %d, the replica holds %d messages", c.epoch, f, o, len(c.logOf(f))))
+			}
+		}
+	}
 	// the leader's HW never covers a message an in-sync replica does not hold
 	for _, m := range c.isr {
 		if h := c.hwOf(c.leader); int(h) >= len(c.logOf(m)) && h > c.hwBefore {
@@ -369,6 +391,22 @@ func TestVerifC02(t *testing.T) {
 			}
 			nextID := 0
 			c.observe(vM{"op": "start"})
+			// the first history of every configuration starts with a fixed prefix (corpus): the real replica
+			// lags behind a phantom leader, leadership moves on to the other phantom, which publishes, and
+			// the real replica then receives ONE replication batch that spans the epoch boundary
+			var script []int
+			if k == 0 {
+				script = []int{0, 0, 2, 0, 0, 0, 3, 0, 1, 1, 3, 2, 1, 0, 0, 1, 0, 3}
+				stats["corpus/epoch-spanning-batch"]++
+			}
+			pop := func(def func() int) int {
+				if len(script) > 0 {
+					x := script[0]
+					script = script[1:]
+					return x
+				}
+				return def()
+			}
 			nsteps := 12 + r.intn(22)
 			for j := 0; j < nsteps && c.viol == ""; j++ {
 				others := func(pred func(string) bool) []string {
@@ -380,7 +418,7 @@ func TestVerifC02(t *testing.T) {
 					}
 					return out
 				}
-				switch r.pick(10, 10, 3, 5, 2, 2) {
+				switch pop(func() int { return r.pick(10, 10, 3, 5, 2, 2) }) {
 				case 0: // publish
 					nextID++
 					if c.leader == "a" {
@@ -401,10 +439,18 @@ func TestVerifC02(t *testing.T) {
 					if len(cands) == 0 {
 						continue
 					}
-					f := cands[r.intn(len(cands))]
-					k := 1 + r.intn(4)
+					f := cands[pop(func() int { return r.intn(len(cands)) })%len(cands)]
+					k := 1 + pop(func() int { return r.intn(4) })
 					if c.leader == "a" {
 						c.v.p = c.part()
+						if len(script) == 0 && r.intn(3) == 0 {
+							// a request that was sent to an earlier leader (epoch) arrives late: it names an
+							// offset the replica had then (here: more than it holds now) and must be ignored
+							late, _ := proto.MarshalReplicationRequest(&proto.ReplicationRequest{ReplicaID: f, Offset: c.part().log.NewestOffset(), LeaderEpoch: c.epoch - 1})
+							c.v.nc.PublishRequest(c.part().getReplicationRequestInbox(), fmt.Sprintf("verif.repl.%s", f), late)
+							c.v.nc.Flush()
+							stats["step/late-request-from-earlier-epoch"]++
+						}
 						c.v.follower(f, int64(len(c.logs[f])-1))
 						c.v.settle()
 						ll := c.logOf("a")
@@ -457,7 +503,7 @@ func TestVerifC02(t *testing.T) {
 					if len(cands) == 0 {
 						continue
 					}
-					nl := cands[r.intn(len(cands))]
+					nl := cands[pop(func() int { return r.intn(len(cands)) })%len(cands)]
 					old := c.leader
 					if nl == "a" {
 						for _, s := range c.sims {
@@ -522,7 +568,7 @@ func TestVerifC02(t *testing.T) {
 					if len(cands) == 0 {
 						continue
 					}
-					f := cands[r.intn(len(cands))]
+					f := cands[pop(func() int { return r.intn(len(cands)) })%len(cands)]
 					q := vLastEpoch(c.logs[f])
 					var ans int64
 					if c.leader == "a" {
@@ -545,7 +591,7 @@ func TestVerifC02(t *testing.T) {
 					if len(cands) == 0 {
 						continue
 					}
-					f := cands[r.intn(len(cands))]
+					f := cands[pop(func() int { return r.intn(len(cands)) })%len(cands)]
 					if c.leader == "a" {
 						c.v.p = c.part()
 						if err := c.v.shrink(f); err != nil {
@@ -579,7 +625,7 @@ func TestVerifC02(t *testing.T) {
 					if len(cands) == 0 {
 						continue
 					}
-					f := cands[r.intn(len(cands))]
+					f := cands[pop(func() int { return r.intn(len(cands)) })%len(cands)]
 					if c.leader == "a" {
 						c.v.p = c.part()
 						if err := c.v.expand(f); err != nil {
